@@ -100,6 +100,84 @@ func (l *Ledger) Check(ok bool, rule, fn, construct, pos, okDetail, badDetail st
 	}
 }
 
+// MergeViewRun folds the ledger of a second pass over the inlined views into this one. The unit is
+// the group of obligations of one rule on one function. A group of the first pass that is not
+// fully discharged is replaced by the group of the second pass when that one is fully discharged
+// and has at least as many obligations (a rule that merely stops recognising a construct must not
+// count as a proof); a group that exists only in the second pass is added when it is fully
+// discharged (it can only help a floor). Everything else stays as the first pass found it.
+// Sound because the inlined view is the same program (calls to private helpers replaced by their
+// bodies): a rule that holds on it holds for the code.
+func (l *Ledger) MergeViewRun(v *Ledger) (replaced, added int) {
+	type key struct{ rule, fn string }
+	group := func(obs []*Obligation) (map[key][]*Obligation, []key) {
+		m := map[key][]*Obligation{}
+		var order []key
+		for _, o := range obs {
+			k := key{o.Rule, o.Func}
+			if _, ok := m[k]; !ok {
+				order = append(order, k)
+			}
+			m[k] = append(m[k], o)
+		}
+		return m, order
+	}
+	clean := func(g []*Obligation) bool {
+		for _, o := range g {
+			if o.Status != Discharged {
+				return false
+			}
+		}
+		return len(g) > 0
+	}
+	mine, order := group(l.Obs)
+	theirs, vorder := group(v.Obs)
+	var out []*Obligation
+	for _, k := range order {
+		g := mine[k]
+		if !clean(g) {
+			if t := theirs[k]; clean(t) && len(t) >= len(g) {
+				for _, o := range t {
+					o.Detail += " [decided on the inlined view: calls to private helpers of the package expanded in place]"
+				}
+				out = append(out, t...)
+				replaced++
+				continue
+			}
+		}
+		out = append(out, g...)
+	}
+	for _, k := range vorder {
+		if _, ok := mine[k]; ok {
+			continue
+		}
+		if t := theirs[k]; clean(t) {
+			for _, o := range t {
+				o.Detail += " [found on the inlined view only]"
+			}
+			out = append(out, t...)
+			added++
+		}
+	}
+	l.Obs = out
+	for _, n := range v.Notes {
+		if strings.HasPrefix(n, "inlined view of") || strings.HasPrefix(n, "no inlined view") {
+			l.Notes = append(l.Notes, n)
+		}
+	}
+	return
+}
+
+// Open reports whether any obligation is not discharged.
+func (l *Ledger) Open() bool {
+	for _, o := range l.Obs {
+		if o.Status != Discharged {
+			return true
+		}
+	}
+	return false
+}
+
 func (l *Ledger) Floor(rule string, min int, why string) {
 	l.Floors = append(l.Floors, Floor{rule, min, why})
 }
